@@ -5,7 +5,7 @@
    blocks ([okdeleg]), patterns without
    a conditional inside an atomic group, look-around or condition (predicate [oke true]). *)
 From FR Require Import Base State Utf8 Utf8Facts Chars Ast Analyze Sem ExprLemmas SemSound GoBack
-                       Vm Compile StateRefine VmRefine Machine Atomize CompileCorrect RunCorrect.
+                       Vm Compile StateRefine VmRefine Machine Param Atomize CompileCorrect RunCorrect ArrowA.
 From Coq Require Import Lia NArith.
 
 Lemma firstn_repeat' {A} (x : A) : forall n m, n <= m -> firstn n (repeat x m) = repeat x n.
@@ -198,3 +198,56 @@ Proof.
 Qed.
 
 End E2ED.
+
+(* ====================================================================================== *)
+(* Stage 3: every compiled program against the reference semantics of the ORIGINAL tree.
+   Arrow A (Proofs/ArrowA.v): making the delegated blocks atomic does not change the first
+   result, captures included, provided every group a back-reference reads is in the
+   analyzer's back-reference set [bs] (the parser's invariant).                             *)
+(* ====================================================================================== *)
+Section E2EF.
+Variable cs : list (list nat).
+Hypothesis W : valid_chars cs.
+Variable cx : ctx.
+Hypothesis Htext : c_text cx = concat cs.
+Hypothesis Hlen : (N.of_nat (length (concat cs)) < usize_max)%N.
+Hypothesis Hpos : bnd cs (c_pos cx).
+Variable bs : N -> bool.
+Variable e : expr.
+Variable p : prog.
+Hypothesis Hcomp : compile bs (wrap e) = inr p.
+Hypothesis Hok : oke true 0 (wrap e).
+Hypothesis Hrefs : refs_ok True (refd bs) (wrap e).
+Hypothesis Hlbc : lbc (wrap e).
+
+Let NC := 2 * S (ngroups e).
+Let fuel := S (length (c_text cx)).
+
+Lemma dsearch_search : dsearch cx bs e = search_list cx e fuel.
+Proof.
+  unfold dsearch, search_list. fold fuel.
+  assert (Hfuel : length (concat cs) < fuel) by (unfold fuel; rewrite Htext; lia).
+  assert (Hp : preA bs (wrap e)).
+  { destruct Hok as (Hw & Hz & _ & _). exact (conj Hw (conj Hz (conj Hrefs Hlbc))). }
+  assert (Hs : st_ok cs (c_pos cx, init_caps (S (ngroups e)))).
+  { split; [exact Hpos|]. cbn [snd]. unfold init_caps. apply Forall_forall.
+    intros x Hx. apply repeat_spec in Hx. subst. exact I. }
+  pose proof (arrowA cs W cx Htext Hlen bs fuel Hfuel (wrap e) _ Hp Hs) as H.
+  destruct (sem cx (atomize bs (wrap e) 0 false) fuel 0 (c_pos cx, init_caps (S (ngroups e)))) as [|a ra],
+           (sem cx (wrap e) fuel 0 (c_pos cx, init_caps (S (ngroups e)))) as [|b rb]; cbn in H; try discriminate; auto.
+  inversion H; reflexivity.
+Qed.
+
+Theorem vm_agrees_with_reference_all max_st lim fuelv :
+  match fst (vm_run cx p max_st lim fuelv) with
+  | RMatch sv => search_list cx e fuel = Some (firstn NC sv)
+  | RNoMatch => search_list cx e fuel = None
+  | RPanic => False
+  | _ => True
+  end.
+Proof.
+  rewrite <- dsearch_search.
+  exact (vm_agrees_atomized cs W cx Htext Hlen Hpos bs e p Hcomp Hok max_st lim fuelv).
+Qed.
+
+End E2EF.
